@@ -53,6 +53,12 @@ def settings_for(rng):
         kw['sw'] = rng.choice([0.0, 1e-45, 2.0, 1e30])
         kw['fs'] = rng.choice([0, 1, 14, 2 ** 40])
         kw['ff'] = rng.choice(['', 'x', '"<&', 'a' * 200])
+    if rng.random() < 0.15:
+        # any text in the string fields of Settings (a lone quote, unbalanced quotes, separators, markup, multi-byte)
+        toks = ['"', "'", ',', ' ', ';', '{', '}', '<', '>', '&', '\\', '/*', 'serif', 'Courier New', '\u00e9', '\u65e5', '\0', '\n', '(', ')', '#', '-', '0', 'url(']
+        for f in ('ff', 'fill', 'bg', 'sc'):
+            if rng.random() < 0.7:
+                kw[f] = ''.join(rng.choice(toks) for _ in range(rng.choice([0, 1, 1, 2, 3, 5, 9])))
     return kw
 
 
@@ -261,7 +267,7 @@ def fam_stress(rng, big):
 def fam_legend_mix(rng):
     """multi-byte drawings with every line-ending convention, followed (or interrupted) by legend headers:
     byte offsets, char offsets and line offsets all differ"""
-    alpha = gen.UNI_DRAW + '日本é✓' + "-|+. '"
+    alpha = gen.UNI_DRAW + '日本é✓\u1100\u26a1\u2329' + "-|+. '"
     rows = [''.join(rng.choice(alpha) for _ in range(rng.randint(0, 12))) for _ in range(rng.randint(0, 12))]
     nl = rng.choice(['\r\n', '\r\n', '\n', '\r', None])
     def join(lines):
